@@ -4,10 +4,10 @@
 PID="$1"; M="$2"; SRC="/tmp/wt/$PID-out/$M"; WT="/tmp/sw/${PID}_$M"
 mkdir -p /tmp/sw; git -C /repo worktree remove --force "$WT" 2>/dev/null
 git -C /repo worktree add -q --detach "$WT" HEAD || exit 3
-cd "$WT" || exit 3
+TOOLS="$(cd "$(dirname "$0")" && pwd)"; cd "$WT" || exit 3
 R_CLEAN=$(PYTHONPATH="$WT/src" timeout 300 /venv/bin/python "$SRC/demo.py" >/tmp/sw/${PID}_$M.clean.log 2>&1; echo $?)
 if ! git apply "$SRC/patch.diff" 2>/tmp/sw/${PID}_$M.apply.log && ! git apply -C1 --recount "$SRC/patch.diff" 2>>/tmp/sw/${PID}_$M.apply.log; then echo "$PID $M APPLY-FAILED"; git -C /repo worktree remove --force "$WT"; exit 4; fi
 R_PATCH=$(PYTHONPATH="$WT/src" timeout 300 /venv/bin/python "$SRC/demo.py" >/tmp/sw/${PID}_$M.patched.log 2>&1; echo $?)
-SUITE=$(/venv/bin/python /tmp/wt/tools/baseline_compare.py --repo "$WT" -n 6 | head -1)
+SUITE=$(/venv/bin/python "$TOOLS/baseline_compare.py" --repo "$WT" -n 6 | head -1)
 cd /; git -C /repo worktree remove --force "$WT"
 echo "$PID $M demo_clean_exit=$R_CLEAN demo_patched_exit=$R_PATCH suite: $SUITE"
